@@ -26,20 +26,33 @@ def run(ctx):
     T = S.table
     ins = S.insert
 
-    # (1a) registration effects only on Vacant
-    ent = [(g, bb, t) for g in T.bodies(ins) for bb, t in g.calls() if callee_is(t, 'HashMap::entry')]
-    R.ob('C08.vacant', ('server table insert', 'looks the id up first'), len(ent) == 1, 'registration starts with an entry lookup for the id', [g.loc(t) for g, _, t in ent] or [ins.loc(ins.d)])
+    # (1a) registration effects only when the id is absent: the Vacant edge of `entry(id)`, or the false edge of `contains_key(&id)`
+    from .common import guarded_by_bool
+    ent = [(g, bb, t) for g in T.bodies(ins) for bb, t in g.calls() if callee_is(t, 'HashMap::entry', 'HashMap::contains_key')]
+    R.ob('C08.vacant', ('server table insert', 'looks the id up first'), len(ent) == 1, 'registration starts with a lookup of the id', [g.loc(t) for g, _, t in ent] or [ins.loc(ins.d)])
     if len(ent) == 1:
         eg, ebb, et = ent[0]
+        by_entry = callee_is(et, 'HashMap::entry')
         pred = lambda x: result_of(P, x, ('call', eg.id, ebb))
+        absent = (lambda bb_: bool(guarded_by_variant(F, P, eg, bb_, pred, ['Vacant']))) if by_entry else (lambda bb_: bool(guarded_by_bool(F, P, eg, bb_, pred, False)))
+        lk = {P.unbound(r) for r, _ in P.root(P.operand(eg, et['args'][1], at=ebb))}
         for bb, t in eg.calls():
             if callee_is(t, 'hash_map::VacantEntry::insert', 'DelayQueue::insert', 'AbortHandle::new_pair', 'HashMap::insert', 'hash_map::OccupiedEntry::insert',
                          'DelayQueue::reset', 'DelayQueue::reset_at', 'DelayQueue::remove', 'DelayQueue::try_remove', 'AbortHandle::abort', 'hash_map::OccupiedEntry::remove'):
-                R.ob('C08.vacant', ('server table insert', 'effect only on Vacant', t['callee'].split('::')[-1] + '@' + t['callee'].split('::')[-2]), bool(guarded_by_variant(F, P, eg, bb, pred, ['Vacant'])),
+                R.ob('C08.vacant', ('server table insert', 'effect only on Vacant', t['callee'].split('::')[-1] + '@' + t['callee'].split('::')[-2]), absent(bb),
                      'the entry, its timer and its abort pair are created (and nothing of an existing request is touched) only when the id is not already in flight', [eg.loc(t)])
-        vi = [(bb, t) for bb, t in eg.calls() if callee_is(t, 'hash_map::VacantEntry::insert')]
+        if by_entry:
+            vi = [(bb, t) for bb, t in eg.calls() if callee_is(t, 'hash_map::VacantEntry::insert')]
+            plain = ('HashMap::insert',)
+        else:
+            # after `contains_key(&id)` answered false, a plain insert under the very same id stores a fresh entry
+            vi = [(bb, t) for bb, t in eg.calls() if callee_is(t, 'HashMap::insert')
+                  and {P.unbound(r) for r, _ in P.root(P.operand(eg, t['args'][1], at=bb))} == lk and lk]
+            plain = ()
+            other = [(bb, t) for bb, t in eg.calls() if callee_is(t, 'HashMap::insert') and (bb, t) not in vi]
+            R.ob('C08.vacant', ('server table insert', 'stores under the id looked up'), not other, 'the entry is stored under the id whose absence was established', [eg.loc(t) for _, t in other] or [ins.loc(ins.d)])
         R.ob('C08.vacant', ('server table insert', 'stores on Vacant'), len(vi) == 1, 'a fresh id is stored', [eg.loc(t) for _, t in vi] or [ins.loc(ins.d)])
-        bad = [(bb, t) for bb, t in eg.calls() if callee_is(t, 'hash_map::OccupiedEntry::insert', 'HashMap::insert', 'hash_map::Entry::or_insert', 'hash_map::Entry::and_modify', 'hash_map::OccupiedEntry::get_mut')]
+        bad = [(bb, t) for bb, t in eg.calls() if callee_is(t, 'hash_map::OccupiedEntry::insert', 'hash_map::Entry::or_insert', 'hash_map::Entry::and_modify', 'hash_map::OccupiedEntry::get_mut', *plain)]
         R.ob('C08.vacant', ('server table insert', 'never overwrites'), not bad, 'an id that is still in flight is never overwritten', [eg.loc(t) for _, t in bad] or [ins.loc(ins.d)])
     # (1b) yielded request built only from the Ok payload of registration
     reg = S.register
